@@ -43,13 +43,17 @@ func (l *UnwrapAggPlanner) addValue(ctx *shared.PlannerContext, entry *shared.Lo
 			stream.values[idx+1] = 1
 		}
 	case "first_over_time":
-		if stream.values[idx+1] == 0 {
+		// the entries arrive ordered by timestamp in the direction of the request (ORDER BY timestamp_ns of the
+		// ClickHouse part): with the default direction (backward) the earliest entry of a bucket arrives last
+		if stream.values[idx+1] == 0 || !ctx.OrderASC {
 			stream.values[idx] = entry.Value
 			stream.values[idx+1] = 1
 		}
 	case "last_over_time":
-		stream.values[idx] = entry.Value
-		stream.values[idx+1] = 1
+		if stream.values[idx+1] == 0 || ctx.OrderASC {
+			stream.values[idx] = entry.Value
+			stream.values[idx+1] = 1
+		}
 	}
 }
 
